@@ -20,6 +20,7 @@ Expected(e) ==
     [] e.k = "rgbint" -> Exactly(e.v)
     [] e.k = "tuple" -> Exactly(e.v)
     [] e.k = "rgbpct" -> RgbPct(e.p)
+    [] e.k = "rgbpct5" -> RgbPct5(e.p)
     [] e.k = "hsl" -> HslToRgb(e.h, e.s, e.l)
 
 ObsOk(e) == e.obs # <<>> /\ IsRgb(e.obs)
